@@ -1,7 +1,7 @@
 /-
   Model.Tsm.Ssm — one segmentation state machine: the code of `SSM`,
   `ClientSSM` and `ServerSSM` (py34/bacpypes/appservice.py, tree AFTER the
-  repairs fixes/Tsm-1 … Tsm-7), transcribed branch for branch.
+  repairs fixes/Tsm-1 … Tsm-8), transcribed branch for branch.
 
   Every handler is a function of the transaction's key and body and returns
   `(new body | none = set_state(COMPLETED/ABORTED): removed from its list,
@@ -230,7 +230,8 @@ def clientAwaitConfirmation (cfg : Cfg) (now : Nat) (k : Key) (b : Body) (a : Ap
 
 /-- `ClientSSM.segmented_confirmation(apdu)` -/
 def clientSegmentedConfirmation (cfg : Cfg) (now : Nat) (k : Key) (b : Body) (a : Apdu) : Res :=
-  if a.ty ≠ 3 then clientAbortBoth k abortInvalidApduInThisState
+  if a.ty = 4 then (some b, [])                                   -- fix Tsm-8: late segment ack ignored
+  else if a.ty ≠ 3 then clientAbortBoth k abortInvalidApduInThisState
   else if !a.seg then clientAbortBoth k abortInvalidApduInThisState
   else
     match b.window with
